@@ -15,7 +15,7 @@ pub fn c10_parse() {
 /// no panic, and a second client is served normally afterwards
 pub fn c10_handlers() {
     let n = mk_primary();
-    create_db(&n.dbs, "d", "none");
+    mk_db(&n.dbs, "d", "none");
     let (mut probe, mut prx) = db_client(&n.dbs, "d");
     let sess = vsym::choice("session", 3);
     vsym::tag_i("session", sess as i64);
